@@ -52,6 +52,9 @@ impl Type {
         match (self, other) {
             (Self::Uninitialized, _) | (_, Self::Uninitialized) => true,
             (Self::Any, _) | (_, Self::Any) => true,
+            // the type of an expression that could not be determined (an error has been reported
+            // for it, or it is outside what is typed): nothing to check against
+            (Self::Unknown, _) | (_, Self::Unknown) => true,
             // 0,1以外の値の場合はエラーを出す必要がある
             (Self::Int, Self::Bit) | (Self::Bit, Self::Int) => true,
             // 指定されたビット幅でIntを表現できない場合はエラーを出す必要がある
